@@ -598,14 +598,7 @@ fn run_known(_args: &Args) -> Report {
 
 fn run_replay(args: &Args) -> Report {
     let mut rep = Report::new();
-    let txt = std::fs::read_to_string(&args.file).unwrap_or_default();
-    // the replay file is JSON written by the orchestrator; the request line is the value of "request"
-    let req = txt
-        .split("\"request\":")
-        .nth(1)
-        .and_then(|s| s.split('"').nth(1))
-        .unwrap_or("")
-        .to_string();
+    let req = replay_request(&args.file);
     if req.is_empty() {
         rep.notes.push("replay file has no request (no-failing-input-found replay): nothing to re-run".into());
         return rep;
